@@ -233,6 +233,22 @@ def run(repo, rep, tier):
                       construct="static-filter", where=vwhere,
                       detail=A.show(attrs, limit=3))
             break
+        # the fallback has a tag exactly when the element itself has one
+        tagged = [w for w in A.walk(fb) if isinstance(w, A.Alt) and any(
+            isinstance(x, A.NodeV) and x.kind == "Element"
+            for x in (w.a, w.b))]
+        okt = False
+        for w in tagged:
+            t = L.norm_test(w.test)
+            okt = "omit is False" in t and \
+                "start['namespace'] not in self.DROP_NS" in t and \
+                isinstance(w.a, A.NodeV) and w.a.kind == "Element"
+        rep.check(okt, "R13.3", vfunc.qualname,
+                  "the fallback is wrapped in the element's tag exactly when "
+                  "the element renders a tag of its own (no tal:omit-tag, not "
+                  "an element of a template-language namespace)",
+                  construct="fallback-tag-condition", where=vwhere,
+                  detail=str([w.test for w in tagged]))
         contents = [w for w in A.walk(fb)
                     if isinstance(w, A.NodeV) and w.kind == "Content"]
         rep.check(bool(contents), "R13.3", vfunc.qualname,
